@@ -6,7 +6,7 @@ import ast
 
 from sa.cfg import CFG, N, all_paths_pass, dominators, find_path, fmt_path, reachable
 from sa.db import FuncInfo, ProgramDB, dotted, src, walk_local
-from sa.model import template_classes
+from sa.model import contains, template_classes
 
 EVENT_BUILDERS = {
     "build_node_start_event",
@@ -176,3 +176,50 @@ def flag_locals(f: FuncInfo, attr: str = "active") -> set[str]:
                 out.add(n.targets[0].id)
         g = g.parent
     return out
+
+
+def branch_facts(test: ast.AST, polarity: bool) -> list[tuple[ast.AST, bool]]:
+    """Atoms known to hold (``(expr, True)``) or not to hold (``(expr, False)``) in the branch of
+    ``test`` taken when it evaluates to ``polarity`` — looks through ``and``/``or``/``not``."""
+    if isinstance(test, ast.UnaryOp) and isinstance(test.op, ast.Not):
+        return branch_facts(test.operand, not polarity)
+    if isinstance(test, ast.BoolOp):
+        if isinstance(test.op, ast.And) and polarity or isinstance(test.op, ast.Or) and not polarity:
+            return [a for v in test.values for a in branch_facts(v, polarity)]
+        return []
+    return [(test, polarity)]
+
+
+def enclosing_facts(node: ast.AST) -> list[tuple[ast.AST, bool]]:
+    """Facts established by the enclosing ``if`` / conditional-expression branches of ``node``
+    (within its function)."""
+    from sa.db import ancestors
+
+    out: list[tuple[ast.AST, bool]] = []
+    prev = node
+    for a in ancestors(node):
+        if isinstance(a, ast.IfExp):
+            if contains(a.body, prev):
+                out += branch_facts(a.test, True)
+            elif contains(a.orelse, prev):
+                out += branch_facts(a.test, False)
+        elif isinstance(a, ast.If):
+            if any(contains(s, prev) for s in a.body):
+                out += branch_facts(a.test, True)
+            elif any(contains(s, prev) for s in a.orelse):
+                out += branch_facts(a.test, False)
+        elif isinstance(a, ast.While):
+            if any(contains(s, prev) for s in a.body):
+                out += branch_facts(a.test, True)
+        if isinstance(a, (ast.FunctionDef, ast.AsyncFunctionDef, ast.Lambda)):
+            break
+        prev = a
+    return out
+
+
+def is_none_fact(atom: ast.AST, pol: bool) -> ast.AST | None:
+    """The expression known to be None under the fact, if the fact is of that form."""
+    if isinstance(atom, ast.Compare) and len(atom.ops) == 1 and isinstance(atom.comparators[0], ast.Constant) and atom.comparators[0].value is None:
+        if isinstance(atom.ops[0], ast.Is) and pol or isinstance(atom.ops[0], ast.IsNot) and not pol:
+            return atom.left
+    return None
